@@ -15,6 +15,7 @@ RULE = ('formulas (<=2 operators) over predicates on x only, y only and mixing x
         'online: sample by sample / batch and one-at-a-time); the result must equal the reference rho in which a predicate that mentions no '
         'output (input) variable contributes +-inf by its truth value under output (input) robustness and 0 under output (input) vacuity, every other '
         'predicate keeps its numeric robustness; with STANDARD semantics every assignment must give the result of the default declarations; '
+        're-declaration layer: all ordered pairs of interface declarations - declared, parsed (offline: used once), changed with set_var_io_type(), parsed again - must give the result of the declaration in force; '
         'non-trivial = a non-standard semantics with at least one insensitive predicate and a reference output that differs from the standard one')
 ASSUMPTIONS = ['reference: vf/refsem.py / vf/dref.py with a predicate hook; values V3/{-1,2}']
 
@@ -104,6 +105,8 @@ def shards(tier):
     out += [{'modular': i} for i in range(len(modular_set(tier)))]
     hs = huge_set()
     out += [{'formulas': [F.to_json(f) for f in hs[i:i + 3]], 'huge': True} for i in range(0, len(hs), 3)]
+    rl = [f for f in fs if len(F.fvars(f)) == 2][::(9 if tier == 'quick' else 3)]
+    out += [{'formulas': [F.to_json(f) for f in rl[i:i + 2]], 'relabel': True} for i in range(0, len(rl), 2)]
     return out
 
 
@@ -142,7 +145,23 @@ def check_case(case):
     vs = case['vars']
     kind, pastify, sem, io = case['kind'], case['pastify'], case['semantics'], case['io']
     hook = make_hook(sem, io)
-    spec = impl.build(kind, case['spec'], vs, io_types=io, semantics=sem, pastify=pastify, subspecs=tuple(case.get('subspecs', ())))
+    if case.get('io_before') is not None:
+        # the interface was declared differently first; the object was parsed (and, offline, used once) with that declaration, then the io types
+        # were changed with set_var_io_type() and the specification parsed again: only the declaration in force counts
+        spec = impl.build(kind, case['spec'], vs, io_types=case['io_before'], semantics=sem, pastify=False, subspecs=tuple(case.get('subspecs', ())))
+        if kind.endswith('off'):
+            d0 = case['data']
+            if kind == 'dt_off':
+                impl.outcome(kinds.dt_values, kind, spec, d0)
+            else:
+                impl.outcome(kinds.ct_samples, kind, spec, {v: [tuple(q) for q in s_] for v, s_ in d0.items()}, 'all')
+        for v, t in io.items():
+            spec.set_var_io_type(v, t)
+        spec.parse()
+        if pastify:
+            spec.pastify()
+    else:
+        spec = impl.build(kind, case['spec'], vs, io_types=io, semantics=sem, pastify=pastify, subspecs=tuple(case.get('subspecs', ())))
     if kind.startswith('dt'):
         w = case['data']
         n = len(next(iter(w.values())))
@@ -187,6 +206,16 @@ def check_case(case):
     return None, ref
 
 
+def refsem_or_none(f, data, kind, sem, io):
+    """reference under another interface declaration (only to tell whether the re-declaration mattered); discrete data only"""
+    if not kind.startswith('dt'):
+        return None
+    try:
+        return refsem.ev(f, data, len(next(iter(data.values()))), make_hook(sem, io))
+    except Exception:
+        return None
+
+
 def run_shard(shard, tier, res):
     mod = sys.modules[__name__]
     quick = tier == 'quick'
@@ -220,6 +249,29 @@ def run_shard(shard, tier, res):
                 sigs = dense_signals(vs)
                 sigs = sigs[::4] if quick else sigs
                 datas = [({v: [list(p) for p in s] for v, s in sg.items()}, ch) for sg in sigs for ch in (('all', 'one') if kind == 'ct_on' else ('all',))]
+            if shard.get('relabel'):
+                # every ordered pair of different interface declarations: declared, parsed (and used), re-declared, parsed again
+                for io0, io in itertools.permutations([i for i in IOS if i is not None], 2):
+                    for sem in SEMS[1:]:
+                        for di, (data, chunk) in enumerate(datas[::2]):
+                            case = {'formula': fj, 'spec': text, 'vars': vs, 'kind': kind, 'pastify': pastify, 'semantics': sem, 'io': io, 'io_before': io0,
+                                    'data': data, 'chunk': chunk, 'subspecs': subs}
+                            res.evaluations += 1
+                            try:
+                                msg, ref = check_case(case)
+                            except refsem.DomainError:
+                                continue
+                            if msg:
+                                res.violation(mod, case, 'interface declared %r, parsed, re-declared %r with set_var_io_type() and parsed again: %s' % (io0, io, msg))
+                                res.outcomes['%s %s mismatch after re-declaration' % (kind, sem)] += 1
+                            else:
+                                res.outcomes['agree'] += 1
+                                res.flags['relabel_cases'] += 1
+                                if ref is not None and ref != refsem_or_none(f, data, kind, sem, io0):
+                                    res.nontrivial += 1
+                                    res.flags['relabel_nontrivial'] += 1
+                            res.digest(text, kind, sem, io0, io, di, msg)
+                continue
             for io in IOS:
                 if io is not None:
                     io = {v: t for v, t in io.items() if v in vs}
@@ -257,4 +309,6 @@ def finalize(agg, outcomes, flags, tier):
     from ..runner import Broken
     if agg['nontrivial'] < 1000:
         raise Broken('vacuous: only %d cases where the interface-aware reference differs from the standard one' % agg['nontrivial'])
-    return {}
+    if flags.get('relabel_nontrivial', 0) < 100:
+        raise Broken('vacuous: only %d re-declaration cases in which the two declarations give different references' % flags.get('relabel_nontrivial', 0))
+    return {'re_declaration_cases': flags.get('relabel_cases', 0)}
